@@ -11,6 +11,30 @@ PROPS = {
         "bounds": {"roots": "10 server operations from a state with one device, one peer server", "interference": "the real conflicting authorization (ban) placed in the gap of the impact-data job"},
         "outside": ["the Go memory model below mutex granularity, the race detector on real workloads", "client-side concurrency (lock balance only, C11)", "production-only WattTime week job (dead code under the test tag used for these harnesses)"],
     },
+    "C17": {
+        "groups": [
+            {"pkg": "server", "tags": "verif,test", "harness": "^verifH_C17_", "unwind": 4},
+            {"pkg": "client", "tags": "verif,test", "harness": "^verifH_C11_sync_round_merge", "unwind": 6, "feas_ms": 8000, "timeout_ms": 120000},
+            {"pkg": "client", "tags": "verif,test", "harness": "^verifH_C10_(genuine|long)", "unwind": 8, "feas_ms": 0, "timeout_ms": 120000, "now_hook": ["client/reports.go"]},
+            {"pkg": "client", "tags": "verif,test", "harness": "^verifH_C10_tampered", "unwind": 8, "feas_ms": 0, "timeout_ms": 120000, "now_hook": ["client/reports.go"], "replay": "symbolic",
+             "replay_note": "the forged signature is a symbolic value constrained only by 'the named verification is false'; a native run would need real forgeries"},
+        ],
+        "bounds": {"server list": "0..2 existing entries with arbitrary contents (2-byte locations), one POST of any body whose key is new or one of the existing ones, signed by the GCA or carrying arbitrary signature bytes",
+                   "migration order": "0..1 (quick) / 0..2 (thorough) new servers, outer and inner signatures each genuine or arbitrary bytes",
+                   "client": "as C11's sync-round merge harness and C10's reply harnesses"},
+        "outside": ["server-side persistence of the server list and of migration orders (documented as not yet implemented)", "a crash in the middle of the client's three file writes of a migration (accepted risk per the code comments; not in the statement)", "unforgeability (Verify is an uninterpreted function)"],
+    },
+    "C10": {
+        "groups": [
+            {"pkg": "client", "tags": "verif,test", "harness": "^verifH_C10_(genuine|long)", "unwind": 8, "feas_ms": 0, "timeout_ms": 120000, "now_hook": ["client/reports.go"]},
+            {"pkg": "client", "tags": "verif,test", "harness": "^verifH_C10_tampered", "unwind": 8, "feas_ms": 0, "timeout_ms": 120000, "now_hook": ["client/reports.go"], "replay": "symbolic",
+             "replay_note": "the forged signature is a symbolic value constrained only by 'the named verification is false'; a native run would need real forgeries"},
+        ],
+        "bounds": {"genuine replies": "0..2 listed servers, each location 0, 3 or 255 bytes (symbolic content), any ban flags/ports/keys, with and without a migration order, any offset and bitfield, time stamp anywhere within +-24 h",
+                   "tampered replies": "well-structured replies (0..1 listed servers, with/without a migration order) lacking exactly one of: server signature, fresh time stamp, own key, GCA signature on the migration, GCA signature on an entry; arbitrary byte strings are covered for panic-freedom only (C11)",
+                   "server states": "one device with arbitrary live-window contents, 0..2 authorized servers (locations 0, 3 or 255 bytes) or a migration order with 0..1 new servers; unknown device id"},
+        "outside": ["unforgeability (that an altered bit makes Verify fail is a fact about secp256k1/Keccak)", "more than 2 listed servers, locations longer than 255 bytes (the one-byte length field cannot carry them)", "real sockets"],
+    },
     "C12": {
         "groups": [
             {"pkg": "server", "tags": "verif,test", "harness": "^verifH_C12_", "unwind": 4},
@@ -61,9 +85,11 @@ PROPS = {
     "C11": {
         "groups": [
             {"pkg": "client", "tags": "verif,test", "harness": "^verifH_C11_sync_reply", "unwind": 3, "feas_ms": 0, "timeout_ms": 60000},
+            {"pkg": "client", "tags": "verif,test", "harness": "^verifH_C11_sync_round", "unwind": 6, "feas_ms": 8000, "timeout_ms": 120000},
         ],
-        "bounds": {"reply": "length prefix + 0..920 bytes of arbitrary content (at most 2 complete server entries after the 576-byte header; longer replies are outside the claim)"},
-        "outside": ["real network timing/back-pressure"],
+        "bounds": {"reply": "length prefix + 0..920 bytes of arbitrary content (at most 2 complete server entries after the 576-byte header; longer replies are outside the claim)",
+                   "sync round": "1 or 2 known servers, each banned or not (8 configurations) x 0..5 failing attempts; a successful reply lists no server, a known one or a new one, banned or not, with or without a migration order; key bytes are distinct constants in the symbolic run (real keys in the native replay)"},
+        "outside": ["real network timing/back-pressure", "more than 2 known servers / more than 1 listed server per reply in the round harnesses", "panic(err) on local disk-write failure (I/O errors are outside the disk model)"],
     },
     "C16": {
         "groups": [
